@@ -2,6 +2,7 @@
 
 from dataclasses import dataclass, replace
 from pathlib import Path
+import re
 from typing import Final, Optional
 
 from logrus import Logger
@@ -21,6 +22,11 @@ from zorg.storage.file import FileManager
 from zorg.storage.sql import SQLSession
 
 _LOGGER: Final = Logger(__name__)
+# Property values that can be written as 'key::value': one plain word, a
+# YYYY-MM-DD date or a ZID.
+_SIMPLE_PROP_VALUE: Final = re.compile(
+    r"[A-Za-z0-9_]+|[0-9]{4}-[0-9]{2}-[0-9]{2}|[0-9]{6}#[0-9A-Za-z]{2,3}"
+)
 _NOTE_PAGE_TMPL: Final = """# {headline}
 #
 # ^ = [[{parent}]]
@@ -231,11 +237,13 @@ def _get_hidden_metadata_mutates(note: Note) -> list[_MetadataMutate]:
                 )
 
     for key, value in sorted(note.properties.items()):
-        # A value that contains whitespace only survives as an inline property.
+        # Only a value that is a single plain word (or a date / ZID) survives
+        # as 'key::value'; anything else (several words, 'a-b', a URL, ...)
+        # must be written as an inline property.
         prop_value = (
-            f"[{key}:: {value}]"
-            if len(value.split()) > 1
-            else f"{key}::{value}"
+            f"{key}::{value}"
+            if _SIMPLE_PROP_VALUE.fullmatch(value)
+            else f"[{key}:: {value}]"
         )
         if not _note_body_has_prop_key(note.body, key):
             metadata_mutates.append(
